@@ -23,13 +23,13 @@ fn contract_is_constant<T: PartialEq>(_samples: &[T]) -> bool {
 /// A subframe whose reported size is `18 + extra` bits (a FIXED subframe of order 0 over an empty
 /// residual whose cached quotient sum is `extra`): stands for "some candidate of arbitrary size".
 fn fixed_candidate_with_bits(extra: usize, bps: u8) -> SubFrame {
-    let mut r = residual_from_raw(0, 0, 0, vec![0], vec![], vec![]);
+    let mut r = residual_from_raw(0, 0, 0, vec![0], vec![0], vec![0]);
     crate::component::verif::set_sum_quotients(&mut r, extra);
     FixedLpc::from_parts(heapless::Vec::new(), r, bps).into()
 }
 
 fn lpc_candidate_with_bits(extra: usize, bps: u8) -> SubFrame {
-    let mut r = residual_from_raw(0, 0, 0, vec![0], vec![], vec![]);
+    let mut r = residual_from_raw(0, 0, 0, vec![0], vec![0], vec![0]);
     crate::component::verif::set_sum_quotients(&mut r, extra);
     let qp = QuantizedParameters::from_parts(&[], 0, 0, 1);
     Lpc::from_parts(heapless::Vec::new(), qp, r, bps).into()
@@ -313,4 +313,94 @@ fn c01_stereo_midside_and_selection() {
     kani::cover!(*out.header().channel_assignment() == ChannelAssignment::MidSide);
     kani::cover!(*out.header().channel_assignment() == ChannelAssignment::RightSide);
     kani::cover!(l[0] == -(1 << 23) && r[0] == (1 << 23) - 1);
+}
+
+// ================================================================================================
+// C01/C02: the candidate builders hand CONSISTENT pieces to the subframe components
+// (warm-up length == predictor order == number of residual samples skipped), with the numeric
+// work replaced by callee contracts.
+// ================================================================================================
+static mut QLPC_ORDER: usize = 0;
+static mut RESIDUAL_WARMUP_SEEN: usize = 0;
+static mut RESIDUAL_LEN_SEEN: usize = 0;
+
+fn contract_perform_qlpc(
+    config: &config::SubFrameCoding,
+    _signal: &[i32],
+) -> heapless::Vec<f64, MAX_LPC_ORDER> {
+    let mut v = heapless::Vec::new();
+    let mut i = 0;
+    while i < config.qlpc.lpc_order {
+        v.push(0.5f64).unwrap();
+        i += 1;
+    }
+    v
+}
+
+/// contract of `lpc::quantize_parameters` (agent unit c07_quantize_parameters_*): some parameters
+/// with 1 <= order <= number of coefficients (trailing zero coefficients are dropped!).
+fn contract_quantize_parameters<T: lpc::LpcFloat>(coefs: &[T], precision: usize) -> QuantizedParameters {
+    let order: usize = kani::any();
+    kani::assume(1 <= order && order <= coefs.len());
+    unsafe {
+        QLPC_ORDER = order;
+    }
+    let c = [1i16; MAX_LPC_ORDER];
+    QuantizedParameters::from_parts(&c[0..order], order, 0, precision)
+}
+
+fn contract_compute_error(_qps: &QuantizedParameters, _signal: &[i32], _errors: &mut [i32]) {}
+
+/// contract of `encode_residual` (Verus unit residual_partition): a Residual over the whole block
+/// whose warm-up length is the one it was given.
+fn contract_encode_residual(_config: &config::Prc, errors: &[i32], warmup_length: usize) -> Residual {
+    unsafe {
+        RESIDUAL_WARMUP_SEEN = warmup_length;
+        RESIDUAL_LEN_SEEN = errors.len();
+    }
+    let mut r = residual_from_raw(0, 0, 0, vec![0], vec![0], vec![0]);
+    crate::component::verif::set_block_and_warmup(&mut r, errors.len(), warmup_length);
+    r
+}
+
+/// `estimated_qlpc`: the LPC subframe's order, its warm-up sample count and the residual's warm-up
+/// length are all the EFFECTIVE order of the quantised parameters (which may be smaller than the
+/// configured order), the warm-up samples are the first samples of the block, and the residual
+/// covers the whole block.  Otherwise a decoder reads the residual from the wrong position.
+//@ unit props=C01,C02 tier=quick kind=bounded timeout=900 funcs="coding::estimated_qlpc" stubs="perform_qlpc -> some coefficients; lpc::quantize_parameters -> parameters with 1 <= order <= configured order; lpc::compute_error -> (residual values not needed); encode_residual -> residual with the given warm-up over the whole block" bound="block 8, configured LPC order 1..=4"
+#[kani::proof]
+#[kani::unwind(34)]
+#[kani::stub(std::fmt::format, stub_format)]
+#[kani::stub(perform_qlpc, contract_perform_qlpc)]
+#[kani::stub(lpc::quantize_parameters, contract_quantize_parameters)]
+#[kani::stub(lpc::compute_error, contract_compute_error)]
+#[kani::stub(encode_residual, contract_encode_residual)]
+fn c01_estimated_qlpc_consistent() {
+    let mut cfg = config::SubFrameCoding::default();
+    let lpc_order: usize = kani::any();
+    kani::assume(1 <= lpc_order && lpc_order <= 4);
+    cfg.qlpc.lpc_order = lpc_order;
+    let s: [i32; 8] = kani::any();
+    let sf = estimated_qlpc(&cfg, &s, 16);
+    let (order, warm_seen, len_seen) = unsafe { (QLPC_ORDER, RESIDUAL_WARMUP_SEEN, RESIDUAL_LEN_SEEN) };
+    match sf {
+        SubFrame::Lpc(l) => {
+            assert!(l.order() == order);
+            assert!(l.warm_up().len() == order);
+            assert!(warm_seen == order);
+            assert!(len_seen == 8);
+            assert!(l.residual().warmup_length() == order && l.residual().block_size() == 8);
+            let mut i = 0;
+            while i < 4 {
+                if i < order {
+                    assert!(l.warm_up()[i] == s[i]);
+                }
+                i += 1;
+            }
+            assert!(l.bits_per_sample() == 16);
+        }
+        _ => assert!(false),
+    }
+    kani::cover!(order < lpc_order);
+    kani::cover!(order == 4);
 }
